@@ -195,7 +195,8 @@ def run_batch(job: dict) -> dict:
             raise RuntimeError(f"unparseable mypy output: {m!r}")
         ln = int(mm.group(1))
         if ln <= prelude_last:
-            prelude_msgs.append(m)
+            if mm.group(2) != "note":  # "... defined here" notes may point into the prelude
+                prelude_msgs.append(m)
             continue
         # binary search not needed: spans are few hundred
         for i, (a, b) in enumerate(spans):
@@ -372,6 +373,10 @@ def _split_top(s: str, sep: str = ",") -> list[str]:
 def _viol(s: dict, i: int, clause: str, argrepr: list[str], pid: int | None, vrep: Any, trep: Any, text: str,
           spans: list[tuple[int, int]]) -> dict:
     a, b = spans[i]
+    if "recv" in s:  # per-function class copies are named <stem><function index>: keep reports index-free
+        def fix(x: Any) -> Any:
+            return re.sub(rf"\b([A-Z][A-Za-z]*?\d?){i}\b", r"\1", x) if isinstance(x, str) else x
+        vrep, trep = fix(vrep), fix(trep)
     return {"clause": clause, "key": s["key"], "fam": s["fam"], "form": s.get("form", ""), "args": argrepr,
             "probe": pid, "value": vrep, "static": trep, "source": "\n".join(text.split("\n")[a - 1:b]),
             "spec": s}
